@@ -107,6 +107,38 @@ PROPS = {
                 level_text='C04_bound / C04_history: every SetDesiredCapacity value and every fleet request, on top of the desired size at that moment, is <= min(max_nodes, cloud max), for all inputs and histories; '
                            'C04_clamp_exact: the clamp lands exactly on the bound and yields no request without headroom. Tie: hist correspondence on resize calls (arguments) + monitor.',
                 level_note=LEVEL_NOTE),
+    'C05': dict(level='proof', module='EscProofs.P.C05',
+                streams=dict(quick=[('arith', ['-n', 40000, '-dir', '@ROOT/corpus/C05']), ('hist', ['-n', 300, '-scans', 10, '-focus', 'up'])],
+                             thorough=[('arith', ['-n', 3000000, '-dir', '@ROOT/corpus/C05']), ('hist', ['-n', 15000, '-scans', 12, '-focus', 'up'])],
+                             search=[('arith', ['-n', 300000, '-dir', '@ROOT/corpus/C05']), ('hist', ['-n', 1500, '-scans', 12, '-focus', 'up'])]),
+                aspects=['pct-kind', 'pct-bits', 'delta', 'delta-err', 'panic', 'resize', 'untaints'], monitors=['C05'],
+                theorems=['Esc.P.C05_exact_formula', 'Esc.P.C05_ceil_sufficient_minimal', 'Esc.P.C05_delta_is_max', 'Esc.P.C05_from_zero_exact',
+                          'Esc.P.C05_from_zero_no_cache', 'Esc.P.C05_float_short_witness'],
+                technique='Lean 4 theorem over exact rationals (the formula is the minimal sufficient node count; from-zero variants) + bit-exact differential correspondence of the float pipeline (binary64 round-to-nearest-even implemented in the model) + exact-rational monitor of the observed delta; partial',
+                level_text='PARTIAL. Exact layer proved: n + ceil(n*((pct-T)/T)) = ceil(100R/(sT)) for n>0 equal nodes, which is sufficient and minimal (C05_exact_formula, C05_ceil_sufficient_minimal); the delta is the max over CPU and memory; from zero: ceil(100R/(cT)) with the cached size, '
+                           'exactly 1 without cache; composition untainted + requested = delta unless clamped (C07_remainder). Float layer: the model executes binary64 round-to-nearest-even on rationals (rne64) and is compared bit for bit (Float64bits) with Go on every case; '
+                           'the statement "float result >= exact need" is false at extreme magnitudes (C05_float_short_witness, finding T2) and the within-+1 bound for the float result is monitored (exact-rational oracle on each observed delta), not proved.',
+                level_note=LEVEL_NOTE + ' Go float64 arithmetic = IEEE-754 binary64 RNE (checked bit-for-bit against the model on every run, not proved).'),
+    'C06': dict(level='proof', module='EscProofs.P.C06', streams=hist('C06', focus='bands'),
+                aspects=['taintadds', 'untaints', 'resize', 'delta'], monitors=['C06'],
+                theorems=['Esc.P.C06_bands', 'Esc.P.C06_triggers', 'Esc.P.C06_triggers_off', 'Esc.P.C06_taint_rate', 'Esc.P.C06_idle_band',
+                          'Esc.P.C06_up_never_taints', 'Esc.P.C06_down_never_adds', 'Esc.P.taintLoop_count_all_ok'],
+                technique='Lean 4 theorem (band case analysis for any rounding function; exact taint count when no attempt fails; journal shape of the idle and scale-up branches) + differential correspondence at threshold neighbourhoods + exact-rational band oracle as monitor',
+                level_text='C06_bands: the decision is -fast / -slow / 0 / scale-up formula according to where max(cpu%,mem%) (as computed) lies relative to the three thresholds (as converted), for every rounding function; C06_taint_rate: exactly min(rate, untainted - min) nodes are tainted when no attempt fails; '
+                           'C06_idle_band: decision 0 yields only reaping; C06_up_never_taints; C06_triggers: starve / max-age only raise the decision to >= 1. Which side of a threshold the *float* utilisation falls on within 2^-40 relative of it is not claimed: the monitor treats that neighbourhood as either-side. '
+                           'Tie: hist (requests placed at threshold*capacity/100 +-2) on taint/untaint/resize calls and the decision delta; band oracle on exact rationals over observed journals.',
+                level_note=LEVEL_NOTE),
+    'C07': dict(level='proof', module='EscProofs.P.C07',
+                streams=dict(quick=[('scenario', ['-dir', '@ROOT/corpus/C07']), ('awsops', ['-n', 3000]), ('hist', ['-n', 400, '-scans', 10, '-focus', 'up'])],
+                             thorough=[('scenario', ['-dir', '@ROOT/corpus/C07']), ('awsops', ['-n', 100000]), ('hist', ['-n', 20000, '-scans', 12, '-focus', 'up'])],
+                             search=[('awsops', ['-n', 20000]), ('hist', ['-n', 1500, '-scans', 12, '-focus', 'up'])]),
+                aspects=['untaints', 'resize', 'gets', 'cached-desired'], monitors=['C07'],
+                theorems=['Esc.P.C07_order', 'Esc.P.C07_remainder', 'Esc.P.C07_on_top', 'Esc.untaintLoop_spec', 'Esc.P.tryDelete_desired', 'Esc.orderBy_pairwise'],
+                technique='Lean 4 theorem (untaint loop attempts a newest-first prefix; count/remainder accounting of ScaleUp; exact SetDesiredCapacity value on the cached desired size, which follows accepted terminations) + differential correspondence incl. the provider cache after multi-node deletions + monitors',
+                level_text='C07_order: any tainted node not attempted is not strictly newer than an attempted one (all tie-breaks, all failing writes); C07_remainder: reported untaints <= N, the cloud is asked only if every tainted node was attempted, and then for the remainder N - untainted clamped to the bound, >= 1; '
+                           'C07_on_top + tryDelete_desired: SetDesiredCapacity = cached desired + amount, the cached desired having been decremented once per accepted termination of the same scan. Tie: hist (up-focused: tainted nodes + high load + force removals) and awsops (cached desired after DeleteNodes); '
+                           'monitors: order, reuse, amount <= N - accepted untaints on top of the running desired size.',
+                level_note=LEVEL_NOTE),
     'C08': dict(level='proof', module='EscProofs.P.C08', streams=hist('C08', focus='ties'),
                 aspects=['taintadds', 'gets'], monitors=['C08'],
                 theorems=['Esc.P.C08_oldest', 'Esc.P.C08_history', 'Esc.P.taintLoop_oldest', 'Esc.orderBy_pairwise', 'Esc.orderBy_perm', 'Esc.taintLoop_spec'],
